@@ -652,7 +652,9 @@ def ref_pow(A, B):
         vals[i] = 0.0 if bad[-1] else v
     kind = None
     if A.kind == 'int' and B.kind == 'int':
-        kind = 'int' if bool((B.vals >= 0).all()) else None
+        # only exponents in use decide: a negative number hidden under the exponent's mask has no say
+        inuse = B.vals[~B.mask] if np.shape(B.mask) == np.shape(B.vals) else B.vals
+        kind = 'int' if bool((inuse >= 0).all()) else None
     elif 'float' in (A.kind, B.kind):
         kind = 'float'
     return ('ok', {'cls': 'Scalar', 'kind': kind, 'lead': out, 'numer': [], 'denom': [], 'vals': vals,
